@@ -708,6 +708,11 @@ def gen_histories(tier, seed):
 CONTROLS = ["\x00", "\x07", "\x08", "\n", "\r", "\x0e", "\x1b", "\x7f", "\x85", "\x9b"]
 
 
+def control_class(ctl):
+    o = ord(ctl)
+    return "C0" if o < 0x20 else "DEL" if o == 0x7F else "C1"
+
+
 def run_control_case(cfg, ctl, cols, pos, rows):
     """A canvas whose bottom/top row contains one control character at `pos`, padded to the width urwid
     itself assigns.  Oracle: nothing but that cell may differ from the canvas."""
@@ -963,8 +968,24 @@ def run(tier="quick", seed=0):
                             bad = run_control_case(cfg, c, cols, pos, rows)
                             if bad is None:
                                 continue
-                            det = {"config": cfg_name(cfg), "control": repr(c), "cols": cols, "rows": rows, "pos": pos} | {k: x for k, x in bad.items() if k != "sig"}
-                            ctl.case((enc, c, cols, rows, pos), not bad, det, sample={"control": repr(c), "cols": cols, "pos": pos}, sig=bad.get("sig"))
+                            # triage: flat fields that tell the defect classes apart for known-finding
+                            # matching (class of the control, urwid's own column count for it, the
+                            # encoding, and what went wrong: shifted / interp / scrolled / raised); the
+                            # failures kept are grouped by (class, kind, encoding) so that a handful of
+                            # controls of one class cannot use up the collector's room.
+                            kind = bad["sig"].split(":")[-1] if bad else None
+                            det = {
+                                "config": cfg_name(cfg),
+                                "control": repr(c),
+                                "cols": cols,
+                                "rows": rows,
+                                "pos": pos,
+                                "encoding": enc,
+                                "control_class": control_class(c),
+                                "width": urwid.str_util.calc_width(c.encode(enc), 0, len(c.encode(enc))),
+                                "kind": kind,
+                            } | {k: x for k, x in bad.items() if k != "sig"}
+                            ctl.case((enc, c, cols, rows, pos), not bad, det, sample={"control": repr(c), "cols": cols, "pos": pos}, sig=f"{control_class(c)}:{kind}:{enc}" if bad else None)
 
         # HTML
         cur_enc = None
